@@ -313,6 +313,24 @@ def geometry_bounded(seed, n_it):
         # a q-set grid and a scalar point are present
         uset = n2p.addgrid(uset, 900, "q", 0, [0, 0, 0], 0, coordref)
         uset = pd_concat_spoint(n2p, uset)
+        # table layout: scalar points BEFORE the grids, and coordinate systems referenced by ID and resolved from the table alone (no coordref)
+        import pandas as pd
+        uset2 = pd.concat([n2p.make_uset([[940, 0], [941, 0]], n2p.mkusetmask("q")), uset], axis=0)
+        for cid in (10, 20, 30):
+            ct, T, o = systems[cid]
+            a = np.array([rng.uniform(0.5, 3), rng.uniform(20, 160), rng.uniform(-170, 170)]) if ct != 1 else rng.randn(3)
+            try:
+                u3 = n2p.addgrid(uset2, 700 + cid, "b", cid, a, cid)          # cid only known through the table
+                c_ = n2p.getcoordinates(u3, 700 + cid, cid)
+                loc = u3.loc[(700 + cid, 1), "x":"z"].values.astype(float)
+            except Exception as ex:
+                return ev, dict(what="coordinate system %d referenced by id cannot be resolved from a table that starts with scalar points: %r" % (cid, ex))
+            ev += 1
+            p = o + T @ local_to_xyz(ct, a)
+            back = o + T @ local_to_xyz(ct, c_)
+            if not (np.allclose(loc, p, atol=1e-8) and np.allclose(back, p, atol=1e-8)):
+                return ev, dict(what="a grid entered in system %d (type %d), referenced by id and resolved from a table with leading scalar points, is not at the entered location" % (cid, ct),
+                                got=loc.tolist(), want=p.tolist(), queried_back=back.tolist())
         # 1. locations in basic agree with the oracle; coordinates query back in own and other systems
         for gid, cid, a, p in grids:
             ev += 1
@@ -380,13 +398,18 @@ def rbe3_bounded(seed, n_it):
     for it in range(n_it):
         uset = None
         ng = rng.randint(3, 6)
-        for k in range(ng):
-            uset = n2p.addgrid(uset, 10 + k, "b", 0, rng.randn(3) * 4, 0)
-        uset = n2p.addgrid(uset, 99, "b", 0, rng.randn(3), 0)
+        ids = [10 + k for k in range(ng)]
+        if it % 2:
+            ids = [int(x) for x in rng.permutation(ids)]              # grids stored in non-ascending id order (addgrid keeps the order given)
+            uset = n2p.addgrid(uset, 99, "b", 0, rng.randn(3), 0)    # ... and the dependent grid first
+        for gid_ in ids:
+            uset = n2p.addgrid(uset, gid_, "b", 0, rng.randn(3) * 4, 0)
+        if not it % 2:
+            uset = n2p.addgrid(uset, 99, "b", 0, rng.randn(3), 0)
         wts = [float(rng.uniform(0.3, 2.5)) for _ in range(ng)]
         ind = []
         for k in range(ng):
-            ind += [[123 if rng.rand() < 0.6 else 123456, wts[k]], 10 + k]
+            ind += [[123 if rng.rand() < 0.6 else 123456, wts[k]], ids[(k * 2) % ng] if it % 2 else 10 + k]
         try:
             rbe3 = n2p.formrbe3(uset, 99, 123456, ind)
         except Exception as ex:
@@ -394,9 +417,14 @@ def rbe3_bounded(seed, n_it):
         ev += 1
         rb = n2p.rbgeom_uset(uset, [0, 0, 0])
         dep = uset.index.get_locs([99])
-        indep = np.array([i for i in range(uset.shape[0]) if i not in dep])
-        if rbe3.shape[1] != indep.size:
-            continue
+        # columns of the interpolation matrix: the independent DOF named in the groups, in the order of the USET table
+        used = set()
+        for q in range(0, len(ind), 2):
+            for ch in str(ind[q][0]):
+                used.add((ind[q + 1], int(ch)))
+        indep = np.array([i for i, key in enumerate(uset.index) if tuple(key) in used])
+        if rbe3.shape != (6, indep.size):
+            return ev, dict(what="formrbe3 matrix shape %s is not 6 x (number of independent DOF named = %d)" % (rbe3.shape, indep.size))
         if not np.allclose(rbe3 @ rb[indep], rb[dep], atol=1e-8):
             return ev, dict(what="formrbe3 interpolation matrix does not reproduce rigid-body motion of the independent grids at the dependent grid",
                             max_diff=float(abs(rbe3 @ rb[indep] - rb[dep]).max()))
